@@ -6,7 +6,7 @@
    connection counts over long runs; the race detector over the concurrent loops) - partial. *)
 From Coq Require Import ZArith NArith Bool List.
 From Mysync Require Import Gtid.Interval Gtid.GtidSet Pure.Quorum Base.Prog Base.ProgFacts Base.Config
-  Procs.NodeOps Procs.ActiveNodes Procs.Switchover Procs.Repair Procs.Manager Procs.Recovery Proofs.RepairProofs Proofs.ManagerProofs Proofs.RecoveryProofs.
+  Base.Post Procs.NodeOps Procs.Lost Procs.ActiveNodes Procs.Switchover Procs.Repair Procs.Manager Procs.Recovery Proofs.RepairProofs Proofs.ManagerProofs Proofs.RecoveryProofs Proofs.NoCrash.
 Import ListNotations.
 Open Scope Z_scope.
 
@@ -55,3 +55,45 @@ Theorem C20_cascade_repair_never_repoints_to_itself : forall cfg env topo h ns l
   h <> re_master env -> runs (repair_cascade_node cfg env topo h ns la) tr (Panicked s) -> s <> 2079.
 Proof. exact cascade_repair_no_self_repoint_panic. Qed.
 Print Assumptions C20_cascade_repair_never_repoints_to_itself.
+
+(* ---- the whole iteration -----------------------------------------------------------------------------------
+   NO run of the manager iteration (stateManager: registry refresh, both views of the cluster, maintenance,
+   switch requests with the complete performSwitchover, failure detection, and the repair tail: offline-mode
+   repair, repairCluster with the cascade resolver, updateActiveNodes, optimisation sync) ends in a crash -
+   for every process memory, every iteration order and EVERY response of every MySQL statement, coordination
+   call, clock and file operation, hence for every content of the coordination service (dangling master,
+   unregistered active-list members and stream_from sources, missing or malformed health records) and every
+   server state.  No hypothesis.  The crash leaves that remain in the model sit behind lookups in the two
+   views; they are unreachable because both views are built over one host list and the recorded master is
+   checked to be on it (Base/Post.v: the join of a parallel section receives one result per branch).
+   Seven leaves WERE reachable when the proof was first attempted; each witness reproduced on the real code
+   and was repaired in /repo: a replica status that comes back empty (four sites, afce506), a health record
+   without replication settings (188364a), a stream_from candidate whose state was collected only partly
+   (226864b).  Not covered: the pre-switchover speed-up phase (Procs/Optimization.v optimization_phase, findings
+   C19-F1..F5) is not part of perform_switchover's model. *)
+Theorem C20_manager_iteration_never_crashes : forall cfg env m tr o,
+  runs (state_manager cfg env m) tr o -> exists a, o = Done a.
+Proof. exact state_manager_never_crashes. Qed.
+Print Assumptions C20_manager_iteration_never_crashes.
+
+(* the premise is satisfiable: a concrete run (the coordination service is not connected) *)
+Example C20_manager_iteration_has_runs : forall cfg env m,
+  runs (state_manager cfg env m) [{| ev_site := 368; ev_call := DcsConnected; ev_resp := RBool false |}] (Done (NxLost, m)).
+Proof. exact state_manager_has_runs. Qed.
+
+(* the same judgement, site by site: every crash leaf the iteration could reach satisfies False *)
+Theorem C20_manager_iteration_has_no_reachable_crash_site : forall cfg env m,
+  post (fun _ : site => False) (fun _ => True) (state_manager cfg env m).
+Proof. exact state_manager_nocrash. Qed.
+Print Assumptions C20_manager_iteration_has_no_reachable_crash_site.
+
+(* the paused state (stateMaintenance, with leaving: re-learning the master, repair, active list) *)
+Theorem C20_maintenance_state_never_crashes : forall cfg env m tr o,
+  runs (state_maintenance cfg env m) tr o -> exists a, o = Done a.
+Proof. exact state_maintenance_never_crashes. Qed.
+Print Assumptions C20_maintenance_state_never_crashes.
+
+(* the Lost state (fencing) *)
+Theorem C20_lost_state_never_crashes : forall cfg env, nopanic (state_lost cfg env).
+Proof. exact state_lost_nopanic. Qed.
+Print Assumptions C20_lost_state_never_crashes.
